@@ -32,6 +32,11 @@ EXC_TYPES = {
 }
 
 
+class FalsyResponse(Response):
+    def __len__(self):
+        return len(self.get_data())
+
+
 class Recorder(object):
     def __init__(self):
         self.tls = threading.local()
@@ -115,6 +120,9 @@ class Recorder(object):
             from werkzeug.wrappers import BaseResponse
             return self.new(BaseResponse('bare-resp-from-%s' % who, status=spec.get('status', 200),
                                          headers={'X-Sim-From': who}), 'resp:' + who)
+        if v == 'falsyresp':
+            # a response that is falsy (a subclass with __len__, empty body): still a response
+            return self.new(FalsyResponse(b'', status=spec.get('status', 202), headers={'X-Sim-From': who}), 'resp:' + who)
         if v == 'str':
             return 'a-string-from-%s' % who
         if v == 'none':
@@ -326,8 +334,8 @@ class OnionModel(object):
 
     def value(self, spec, who):
         v = spec.get('value', 'resp')
-        if v in ('resp', 'baseresp'):
-            return ('resp', self.new('resp:' + who), who, spec.get('status', 200))
+        if v in ('resp', 'baseresp', 'falsyresp'):
+            return ('resp', self.new('resp:' + who), who, spec.get('status', 202 if v == 'falsyresp' else 200))
         if v.startswith('http:'):
             return ('http', self.new('exc:' + v), v[5:], spec.get('breaking', True))
         if v == 'dict':
